@@ -336,10 +336,13 @@ class Boolean(Scalar):
         :attr:`true_synonyms`, ``False`` if in :attr:`false_synonyms` and
         ``None`` otherwise.
 
-        For non-text values, equivalent to ``bool(value)``.
+        ``None`` stays ``None``.  For other non-text values, equivalent to
+        ``bool(value)``.
 
         """
-        if not isinstance(value, str):
+        if value is None:
+            return None
+        elif not isinstance(value, str):
             return bool(value)
         elif value == self.true or value in self.true_synonyms:
             return True
